@@ -29,7 +29,14 @@ FITS = {"f1": dict(model_key="hertz_para"),
         # fitted on the OTHER segment: NaN exactly where f1 is defined
         "f4": dict(model_key="hertz_para", segment=1),
         # an unsuccessful fit: the fit column is NaN everywhere
-        "f5": dict(model_key="hertz_para", range_x=[1.0, 2.0])}
+        "f5": dict(model_key="hertz_para", range_x=[1.0, 2.0]),
+        # settings with many significant digits (text round trip)
+        "f6": dict(model_key="hertz_para",
+                   range_x=[-1.7512345678e-06, 3.2198765432e-07],
+                   weight_cp=1.23456789e-6, gcf_k=0.987654321),
+        # bounds computed with numpy (scalars of numpy type)
+        "f7": dict(model_key="hertz_para",
+                   range_x=(np.float64(-2e-6), np.float64(5e-7)))}
 USERS = {"u1": ("alice", 3, "first look"), "u2": ("bob", 7, "second opinion")}
 WRITE_KINDS = {"fit", "fit range", "force", "fit residuals", "tip position",
                "segment"}
@@ -423,7 +430,8 @@ def run_history(job):
 def histories(tier, rng, nsteps):
     alpha = [("B1", "f1", "u1"), ("B1", "f1", "u2"), ("B1", "f2", "u1"),
              ("B2", "f1", "u1"), ("A0", "f2", "u2"), ("B1", "f3", "u2"),
-             ("B1", "f4", "u2"), ("B1", "f5", "u1")]
+             ("B1", "f4", "u2"), ("B1", "f5", "u1"), ("B2", "f6", "u1"),
+             ("A0", "f7", "u1")]
     out = []
     # every single save with a crash at every write call, followed by a
     # clean save of another / the same curve and a re-save
